@@ -73,6 +73,42 @@ let dns_info (m : int array) =
     end
   end
 
+(* Is this buffer exactly ONE DNS message?  Header, qdcount questions, an+ns+ar resource records
+   walked by their own lengths; the walk must end exactly at the end of the buffer (no trailing
+   octets, nothing cut off). *)
+let dns_exact (m : int array) : (unit, string) result =
+  let n = Array.length m in
+  if n < 12 then Error (Printf.sprintf "%d octets, shorter than a header" n)
+  else begin
+    let u16 o = m.(o) * 256 + m.(o + 1) in
+    let rec skip_name off hops =
+      if off >= n || hops > 130 then None
+      else let l = m.(off) in
+        if l = 0 then Some (off + 1)
+        else if l land 0xC0 = 0xC0 then (if off + 2 <= n then Some (off + 2) else None)
+        else if l < 64 then skip_name (off + 1 + l) (hops + 1)
+        else None in
+    let qd = u16 4 and rrs = u16 6 + u16 8 + u16 10 in
+    let rec questions off k =
+      if k = 0 then Some off
+      else match skip_name off 0 with
+        | Some o when o + 4 <= n -> questions (o + 4) (k - 1)
+        | _ -> None in
+    let rec records off k =
+      if k = 0 then Some off
+      else match skip_name off 0 with
+        | Some o when o + 10 <= n ->
+          let rdl = u16 (o + 8) in
+          if o + 10 + rdl <= n then records (o + 10 + rdl) (k - 1) else None
+        | _ -> None in
+    match questions 12 qd with
+    | None -> Error "question section runs past the end"
+    | Some o ->
+      (match records o rrs with
+       | None -> Error "record sections run past the end"
+       | Some e -> if e = n then Ok () else Error (Printf.sprintf "%d trailing octets after the message (%d of %d)" (n - e) e n))
+  end
+
 (* process_answer accepts (returns ARES_SUCCESS): empty messages are dropped, anything shorter
    than a DNS header is rejected by ares_dns_parse.  The generators only produce well-formed
    longer messages (built by the simulator with the library's writer). *)
@@ -329,6 +365,15 @@ let analyze (head : string) (fam : string) (lines : string array) : result =
         | Some k, Some h ->
           r.txs <- (k, h) :: r.txs;
           if kv "valid" rest <> Some "1" then fail "framing" (Printf.sprintf "s%d received a malformed message: %s" k h);
+          (* every buffer handed to the socket is exactly one DNS message (UDP datagram), resp.
+             every length-prefixed frame of the stream is (TCP) *)
+          (match dns_exact (Array.of_list (ints_of_hex h)) with
+           | Ok () -> ()
+           | Error why ->
+             let cuth = if String.length h > 160 then String.sub h 0 160 ^ ".." else h in
+             if kv "proto" rest = Some "udp" then
+               fail "udp-datagram-not-one-message" (Printf.sprintf "s%d: datagram of %d octets: %s: %s" k (String.length h / 2) why cuth)
+             else fail "tcp-frame-malformed" (Printf.sprintf "s%d: frame of %d octets: %s: %s" k (String.length h / 2) why cuth));
           (match kv "qname" rest, kvi "id" rest with
            | Some qn, Some id ->
              (match Hashtbl.find_opt tok_of_name (String.lowercase_ascii qn) with
@@ -385,6 +430,11 @@ let analyze (head : string) (fam : string) (lines : string array) : result =
      | "SENDTO" :: s :: rest ->
        (match sock_of s with
         | Some k ->
+          (match Hashtbl.find_opt socks k with
+           | Some sk when not sk.tcp ->
+             (* a blocked UDP send: the frame stays queued, later frames pile up behind it *)
+             if kvi "rc" rest = None || kvi "rc" rest = Some (-1) then r.nblocked <- r.nblocked + 1
+           | _ -> ());
           (match Hashtbl.find_opt socks k with
            | Some sk when sk.tcp ->
              let len = match kvi "len" rest with Some v -> v | None -> -1 in
@@ -519,6 +569,16 @@ let analyze (head : string) (fam : string) (lines : string array) : result =
     incr i
   done;
   close_ctx ();
+  (* the TCP byte stream the server received is the sequence of length-prefixed messages the
+     simulator reassembled, nothing in between (extracted spec [frames]) *)
+  Hashtbl.iter (fun k sk ->
+    if sk.tcp && Buffer.length sk.sent > 0 then begin
+      let (ms, _tl) = frames (zl_of_hex (Buffer.contents sk.sent)) in
+      let got = List.map hex_of_zl ms in
+      let exp = try Hashtbl.find tx_by_sock k with Not_found -> [] in
+      if got <> exp then
+        fail "tcp-frame-mismatch" (Printf.sprintf "s%d: the accepted bytes cut into %d frames, the server reassembled %d messages" k (List.length got) (List.length exp))
+    end) socks;
   (* specification-level delivery oracle per TCP socket *)
   Hashtbl.iter (fun k sk ->
     if sk.tcp then begin
@@ -591,13 +651,27 @@ let group_lines file : (int, string array) Hashtbl.t * (int, int) Hashtbl.t =
      done with End_of_file -> ());
   flush (); close_in ic; (tbl, cnt)
 
+(* CHAN20_ORACLES=C03: the engine also runs under property C03 ("the same holds for the
+   length-prefixed frames the library actually hands to sockets"), judged on the frame oracles
+   only: no DIFF, no other FAIL kind. *)
+let c03_only = (Sys.getenv_opt "CHAN20_ORACLES" = Some "C03")
+let frame_kinds = ["udp-datagram-not-one-message"; "tcp-frame-malformed"; "tcp-frame-mismatch"; "framing"]
+let emit (line : string) =
+  if not c03_only then print_string line
+  else if starts_with "DIFF " line then ()
+  else if starts_with "FAIL " line then
+    (match words line with
+     | _ :: _ :: kind :: _ when List.mem kind frame_kinds -> print_string line
+     | _ -> ())
+  else print_string line
+
 let () =
   let cases = read_lines Sys.argv.(1) in
   let (impl, implcnt) = group_lines Sys.argv.(2) in
   let tot_reads = ref 0 and tot_split = ref 0 and tot_short = ref 0 and tot_block = ref 0 and tot_tc = ref 0 and tot_w2 = ref 0 in
   List.iteri (fun k line ->
     match String.index_opt line '|' with
-    | None -> Printf.printf "CASE %d trivial-badcase\n" k
+    | None -> Printf.ksprintf emit "CASE %d trivial-badcase\n" k
     | Some bar ->
       let head = String.sub line 0 bar in
       let body = String.sub line (bar + 1) (String.length line - bar - 1) in
@@ -619,44 +693,44 @@ let () =
       let unwatched = Array.exists (fun l -> starts_with "RUN iterations=" l &&
                                              (match kv "unwatched" (words l) with Some v -> v <> "[]" | None -> false)) lsa in
       if nl > max_lines || stalled || unwatched then begin
-        Printf.printf "CASE %d %s:stalled\n" k fam;
-        if not crashed then Printf.printf "FAIL %d stall the transfer did not complete: %s\n" k
+        Printf.ksprintf emit "CASE %d %s:stalled\n" k fam;
+        if not crashed then Printf.ksprintf emit "FAIL %d stall the transfer did not complete: %s\n" k
             (if unwatched then "unsent bytes on a socket the library does not watch for writability (runw)"
              else if stalled then "an event loop of the history hit its iteration limit" else Printf.sprintf "%d log lines" nl)
       end else
       let a = analyze head fam (Array.of_list (List.rev !seg)) in
       if crashed || !plain = [] then begin
-        Printf.printf "CASE %d %s:crashed\n" k fam;
-        List.iter (fun d -> Printf.printf "DIFF %d seg: %s\n" k d) (List.rev a.diffs)
+        Printf.ksprintf emit "CASE %d %s:crashed\n" k fam;
+        List.iter (fun d -> Printf.ksprintf emit "DIFF %d seg: %s\n" k d) (List.rev a.diffs)
       end else begin
         let headw = List.filter (fun w -> not (starts_with "chunk=" w || starts_with "wpat=" w)) (words head) in
         let b = analyze (String.concat " " headw) fam (Array.of_list (List.rev !plain)) in
         tot_reads := !tot_reads + a.nreads; tot_split := !tot_split + a.nsplit; tot_short := !tot_short + a.nshort;
         tot_block := !tot_block + a.nblocked; tot_tc := !tot_tc + a.ntc; tot_w2 := !tot_w2 + a.w2ops + b.w2ops;
         let nontrivial = a.nsplit > 0 || a.nshort > 0 || a.nblocked > 0 || a.ntc > 0 in
-        Printf.printf "CASE %d %s%s:%s%s%s%s%s\n" k (if nontrivial then "" else "trivial-") fam
+        Printf.ksprintf emit "CASE %d %s%s:%s%s%s%s%s\n" k (if nontrivial then "" else "trivial-") fam
           (if a.nsplit > 0 then "split" else "whole") (if a.nshort > 0 then "+short" else "") (if a.nblocked > 0 then "+block" else "")
           (if a.ntc > 0 then "+tc" else "") (if a.npw > 0 then "+pw" else "");
-        List.iter (fun d -> Printf.printf "DIFF %d seg: %s\n" k d) (List.rev a.diffs);
-        List.iter (fun d -> Printf.printf "DIFF %d plain: %s\n" k d) (List.rev b.diffs);
-        List.iter (fun (kd, d) -> Printf.printf "FAIL %d %s seg: %s\n" k kd d) (List.rev a.fails);
-        List.iter (fun (kd, d) -> Printf.printf "FAIL %d %s plain: %s\n" k kd d) (List.rev b.fails);
+        List.iter (fun d -> Printf.ksprintf emit "DIFF %d seg: %s\n" k d) (List.rev a.diffs);
+        List.iter (fun d -> Printf.ksprintf emit "DIFF %d plain: %s\n" k d) (List.rev b.diffs);
+        List.iter (fun (kd, d) -> Printf.ksprintf emit "FAIL %d %s seg: %s\n" k kd d) (List.rev a.fails);
+        List.iter (fun (kd, d) -> Printf.ksprintf emit "FAIL %d %s plain: %s\n" k kd d) (List.rev b.fails);
         let servers = match kvi "servers" (words head) with Some v -> v | None -> 1 in
         (* third variant: without the pending-write callback (deferred-write notification must
            not change the outcome either) *)
         if !nopw <> [] then begin
           let headn = List.filter (fun w -> w <> "pendingwritecb=1") (words head) in
           let c = analyze (String.concat " " headn) fam (Array.of_list (List.rev !nopw)) in
-          List.iter (fun d -> Printf.printf "DIFF %d nopw: %s\n" k d) (List.rev c.diffs);
-          List.iter (fun (kd, d) -> Printf.printf "FAIL %d %s nopw: %s\n" k kd d) (List.rev c.fails);
+          List.iter (fun d -> Printf.ksprintf emit "DIFF %d nopw: %s\n" k d) (List.rev c.diffs);
+          List.iter (fun (kd, d) -> Printf.ksprintf emit "FAIL %d %s nopw: %s\n" k kd d) (List.rev c.fails);
           let pkind = if a.dup_retry || c.dup_retry then "metamorphic-dup" else "metamorphic-pw" in
           if a.cbs <> c.cbs then
-            Printf.printf "FAIL %d %s callbacks differ with / without the pending-write callback\n" k pkind;
+            Printf.ksprintf emit "FAIL %d %s callbacks differ with / without the pending-write callback\n" k pkind;
           if servers <= 1 && a.txs <> c.txs then
-            Printf.printf "FAIL %d %s messages at the server differ with / without the pending-write callback (%d / %d messages)\n" k pkind
+            Printf.ksprintf emit "FAIL %d %s messages at the server differ with / without the pending-write callback (%d / %d messages)\n" k pkind
               (List.length a.txs) (List.length c.txs)
           else if servers > 1 && List.sort compare (List.map snd a.txs) <> List.sort compare (List.map snd c.txs) then
-            Printf.printf "FAIL %d %s multiset of messages at the servers differs with / without the pending-write callback\n" k pkind
+            Printf.ksprintf emit "FAIL %d %s multiset of messages at the servers differs with / without the pending-write callback\n" k pkind
         end;
         (* metamorphic oracle *)
         (* A query that was transmitted twice on one connection and gets two retry-causing answers:
@@ -667,19 +741,19 @@ let () =
         if a.cbs <> b.cbs then begin
           let only x y = List.filter (fun c -> not (List.mem c y)) x in
           let cutl s = if String.length s > 160 then String.sub s 0 160 else s in
-          Printf.printf "FAIL %d %s callbacks differ: segmented-only=[%s] unsegmented-only=[%s]\n" k mkind
+          Printf.ksprintf emit "FAIL %d %s callbacks differ: segmented-only=[%s] unsegmented-only=[%s]\n" k mkind
             (String.concat " | " (List.map cutl (only a.cbs b.cbs))) (String.concat " | " (List.map cutl (only b.cbs a.cbs)))
         end;
         if servers <= 1 then begin
           if a.txs <> b.txs then begin
             let show l = String.concat "," (List.map (fun (s, h) -> Printf.sprintf "s%d:%s" s (if String.length h > 24 then String.sub h 0 24 else h)) l) in
-            Printf.printf "FAIL %d %s messages at the server differ: segmented=[%s] unsegmented=[%s]\n" k mkind (show a.txs) (show b.txs)
+            Printf.ksprintf emit "FAIL %d %s messages at the server differ: segmented=[%s] unsegmented=[%s]\n" k mkind (show a.txs) (show b.txs)
           end
         end else begin
           let ms l = List.sort compare (List.map snd l) in
           if ms a.txs <> ms b.txs then
-            Printf.printf "FAIL %d %s multiset of messages received by the servers differs: segmented %d messages, unsegmented %d\n" k mkind (List.length a.txs) (List.length b.txs)
+            Printf.ksprintf emit "FAIL %d %s multiset of messages received by the servers differs: segmented %d messages, unsegmented %d\n" k mkind (List.length a.txs) (List.length b.txs)
         end
       end) cases;
-  Printf.printf "STAT read_events %d\nSTAT reads_completing_a_buffered_frame %d\nSTAT short_writes %d\nSTAT blocked_writes %d\nSTAT tc_upgrades %d\nSTAT w2_ops %d\n"
+  Printf.ksprintf emit "STAT read_events %d\nSTAT reads_completing_a_buffered_frame %d\nSTAT short_writes %d\nSTAT blocked_writes %d\nSTAT tc_upgrades %d\nSTAT w2_ops %d\n"
     !tot_reads !tot_split !tot_short !tot_block !tot_tc !tot_w2
